@@ -335,70 +335,81 @@ pub fn run(tier: Tier) -> i32 {
         graphs.push(t.current());
         trees.push(t);
     }
-    // metamorphic variants for graphs with unreachable files
+    // The graphs are judged in chunks (a thorough run has more than a million generations and every
+    // outcome carries its output text). A chunk holds base graphs together with their metamorphic
+    // variants: the same graph with the unreachable files removed / broken / replaced.
     let base_len = graphs.len();
-    let mut variant_of: Vec<(usize, Noise)> = vec![];
-    for gi in 0..base_len {
-        let g = &graphs[gi];
-        if g.noise == Noise::None && reachable(g).len() < g.n {
-            // exhaustive part: all three variants for n <= 3, a rotating one for n = 4
-            let vs: Vec<Noise> = if g.n <= 3 || gi >= exhaustive_n {
-                vec![Noise::UnreachableRemoved, Noise::UnreachableBroken, Noise::UnreachableOtherSchema]
-            } else {
-                vec![[Noise::UnreachableRemoved, Noise::UnreachableBroken, Noise::UnreachableOtherSchema][gi % 3]]
-            };
-            for v in vs {
-                variant_of.push((gi, v));
-            }
-        }
-    }
-    for (gi, v) in &variant_of {
-        let mut g = graphs[*gi].clone();
-        g.noise = *v;
-        graphs.push(g);
-    }
-
-    let sets: Vec<FileSet> = graphs.iter().map(render).collect();
-    let outs = worker::run_all(&sets, 16);
-
     let mut reported = BTreeSet::new();
     let mut slowest = 0u64;
-    for (i, (g, out)) in graphs.iter().zip(&outs).enumerate() {
-        let classes = shape_classes(g);
-        ev.case(&format!("{g:?}"), !classes.is_empty());
-        for c in &classes {
-            ev.class(c);
-        }
-        ev.class(&format!("outcome.{}", out.class()));
-        if let Outcome::Ok { ms, .. } = out {
-            slowest = slowest.max(*ms);
-        }
-        if i == 40 || i == exhaustive_n + 1 || i == exhaustive_n / 2 {
-            ev.sample(json!({"graph": g, "reachable": reachable(g), "outcome": out.class()}));
-        }
-        if let Some((sig, detail)) = judge(g, out) {
-            let sig = format!("C11 {sig}");
-            if reported.insert(sig.clone()) {
-                // smallest graph with this signature: graphs are enumerated small-first, so the first hit is minimal
-                route_failure(&mut ev, &findings, "import-graph", &sig, json!({"graph": g, "detail": detail, "files": render(g)}));
-            } else {
-                ev.class("further-failing-graphs");
+    let chunk = 20_000usize;
+    let mut lo = 0usize;
+    while lo < base_len {
+        let hi = (lo + chunk).min(base_len);
+        let mut batch: Vec<Graph> = graphs[lo..hi].to_vec();
+        let mut variant_of: Vec<(usize, Noise)> = vec![]; // index into the batch
+        for bi in 0..(hi - lo) {
+            let gi = lo + bi;
+            let g = &graphs[gi];
+            if g.noise == Noise::None && reachable(g).len() < g.n {
+                // exhaustive part: all three variants for n <= 3, a rotating one for n = 4
+                let vs: Vec<Noise> = if g.n <= 3 || gi >= exhaustive_n {
+                    vec![Noise::UnreachableRemoved, Noise::UnreachableBroken, Noise::UnreachableOtherSchema]
+                } else {
+                    vec![[Noise::UnreachableRemoved, Noise::UnreachableBroken, Noise::UnreachableOtherSchema][gi % 3]]
+                };
+                for v in vs {
+                    variant_of.push((bi, v));
+                }
             }
         }
-    }
-    // metamorphic byte equality
-    for (k, (gi, v)) in variant_of.iter().enumerate() {
-        let a = &outs[*gi];
-        let b = &outs[base_len + k];
-        ev.class("metamorphic-pairs");
-        if a.output().is_some() && a.output() != b.output() {
-            let sig = format!("C11 unreachable-sibling-changes-output:{v:?}");
-            if reported.insert(sig.clone()) {
-                let mut g = graphs[*gi].clone();
-                g.noise = *v;
-                route_failure(&mut ev, &findings, "import-graph-metamorphic", &sig, json!({"graph": g, "detail": format!("output with noise {v:?} differs from output without ({} vs {})", b.class(), a.class())}));
+        let n_base = batch.len();
+        for (bi, v) in &variant_of {
+            let mut g = batch[*bi].clone();
+            g.noise = *v;
+            batch.push(g);
+        }
+        let sets: Vec<FileSet> = batch.iter().map(render).collect();
+        let outs = worker::run_all(&sets, 16);
+        drop(sets);
+        for (i, (g, out)) in batch.iter().zip(&outs).enumerate() {
+            let classes = shape_classes(g);
+            ev.case(&format!("{g:?}"), !classes.is_empty());
+            for c in &classes {
+                ev.class(c);
+            }
+            ev.class(&format!("outcome.{}", out.class()));
+            if let Outcome::Ok { ms, .. } = out {
+                slowest = slowest.max(*ms);
+            }
+            let gi = lo + i;
+            if i < n_base && (gi == 40 || gi == exhaustive_n + 1 || gi == exhaustive_n / 2) {
+                ev.sample(json!({"graph": g, "reachable": reachable(g), "outcome": out.class()}));
+            }
+            if let Some((sig, detail)) = judge(g, out) {
+                let sig = format!("C11 {sig}");
+                if reported.insert(sig.clone()) {
+                    // smallest graph with this signature: graphs are enumerated small-first, so the first hit is minimal
+                    route_failure(&mut ev, &findings, "import-graph", &sig, json!({"graph": g, "detail": detail, "files": render(g)}));
+                } else {
+                    ev.class("further-failing-graphs");
+                }
             }
         }
+        // metamorphic byte equality
+        for (k, (bi, v)) in variant_of.iter().enumerate() {
+            let a = &outs[*bi];
+            let b = &outs[n_base + k];
+            ev.class("metamorphic-pairs");
+            if a.output().is_some() && a.output() != b.output() {
+                let sig = format!("C11 unreachable-sibling-changes-output:{v:?}");
+                if reported.insert(sig.clone()) {
+                    let mut g = batch[*bi].clone();
+                    g.noise = *v;
+                    route_failure(&mut ev, &findings, "import-graph-metamorphic", &sig, json!({"graph": g, "detail": format!("output with noise {v:?} differs from output without ({} vs {})", b.class(), a.class())}));
+                }
+            }
+        }
+        lo = hi;
     }
     ev.exhaustive = Some(true);
     ev.extra.insert("exhaustive_graphs".into(), json!(exhaustive_n));
